@@ -638,7 +638,63 @@ class Flow:
             return (TRUE, FALSE) if n['v'] == '1' else (FALSE, TRUE)
         if 'cv' in n:
             return (TRUE, FALSE) if int(n['cv']) != 0 else (FALSE, TRUE)
+        if k == 'DeclRefExpr' and n.get('rk') == 'local' and n.get('t', '').replace('const ', '') == 'bool':
+            bd = self._bool_def(n['d'])
+            if bd is not None:
+                a, b = self._atom2(nid)
+                p, q = bd
+
+                def both(x, y):
+                    if x is None:
+                        return y
+                    if y is None:
+                        return x
+                    return dnf_and(x, y)
+                return both(a, p), both(b, q)
         return self._atom2(nid)
+
+    def _bool_def(self, d):
+        """(pos, neg) of the initialiser of a bool local that is defined exactly once (a named test)."""
+        c = getattr(self, '_booldefs', None)
+        if c is None:
+            c = self._booldefs = {}
+            fn = self.fn
+            cnt = {}
+            init = {}
+            for i, n in fn.all_nodes():
+                if n['k'] == 'DeclStmt':
+                    for dd in n['decls']:
+                        if dd['t'].replace('const ', '') == 'bool' and dd.get('init', -1) >= 0 and not dd.get('static_local'):
+                            init[dd['d']] = (i, dd['init'])
+                elif n['k'] in ('BinaryOperator', 'CompoundAssignOperator') and n.get('op') in ASSIGN_OPS:
+                    ln = fn.nodes[fn.strip(n['ch'][0])]
+                    if ln['k'] == 'DeclRefExpr':
+                        cnt[ln['d']] = cnt.get(ln['d'], 0) + 1
+                elif n['k'] == 'UnaryOperator' and n.get('op') == '&':
+                    ln = fn.nodes[fn.strip(n['ch'][0])]
+                    if ln['k'] == 'DeclRefExpr':
+                        cnt[ln['d']] = cnt.get(ln['d'], 0) + 1
+            self._boolinit = {k: v for k, v in init.items() if not cnt.get(k)}
+        if d in c:
+            return c[d]
+        c[d] = None
+        bi = self._boolinit.get(d)
+        if bi is not None:
+            decl, init = bi
+            loc = self.locate(decl)
+            if loc is not None:
+                env = self.env_at(decl)
+                self._partial = False
+                p, q = self.cond2(init, env)
+                # only mask facts are position independent (they speak about incoming values)
+
+                def keep(x):
+                    if x is None:
+                        return None
+                    r = frozenset(frozenset(l for l in cj if l[0].startswith('b:')) for cj in x)
+                    return None if (frozenset() in r or not r) else r
+                c[d] = (keep(p), keep(q))
+        return c[d]
 
     def _atom2(self, nid):
         c = self.canon.of(nid)
